@@ -389,7 +389,22 @@ NOT_YET = 'check not built yet in this session (work in progress; the design in 
 def main():
     checks = []
     shared = {'C01', 'C02', 'C03', 'C04', 'C05', 'C06', 'C07', 'C10', 'C11', 'C12', 'C13', 'C14', 'C15', 'C18', 'C19'}
+    added = {
+        'C01': '  Every question is asked again after the dataset was used in bulk (geometry exported, spatial index built, every '
+               'cell located): the answers, refusals included, must be what they were; meshes with a named but unused edge dimension '
+               'whose edges are known through a face_edge table only, and one- and two-cell meshes without a face_dimension attribute, '
+               'are fixed inputs.',
+        'C13': '  The accessor\'s choice of "all depth coordinates" is compared per run with model DepthCoord.v (theorems in '
+               'Props/C12.v) on datasets carrying every mixture of the depth markers on and off the grids; the shared leg observes the '
+               'bounds of a dimension coordinate as well.',
+        'C16': '  Geometry held in less common ways - CF grids opened with decode_coords=\'all\' (bounds named in the encoding), a mesh '
+               'with a face_edge table and no edge_dimension attribute - must be in the inventory, and a one-value edit of it must '
+               'change the hashed bytes.',
+        'C17': '  Datasets assembled in memory (time units without a stored dtype, records on fractions of the unit) are saved through '
+               'the convention: no variable gains a fill value, the units have the EMS form, the instants are kept.',
+    }
     for pid, (tech, text, note, ref) in sorted(CHECKS.items()):
+        text += added.get(pid, '')
         if pid in shared:
             text += ('  Shared leg (harness/traits.py, DESIGN section 14): the same generated content held lazily from a file, '
                      'undecoded (mask_and_scale=False, signed and unsigned padding), in dask chunks, derived from an opened file, '
